@@ -221,6 +221,23 @@ class Interp:
             else:
                 frame.env[p] = ("param", p)
 
+    # ------------------------------------------------------------------ post-hoc evaluation
+    def call_value(self, fterm: Term, args: Tuple[Term, ...], conds: Tuple[Cond, ...] = (), loops: Tuple[int, ...] = ()) -> Optional[Term]:
+        """Result term of calling a closure term with `args` at a point with the given path condition (used by rules to look
+        into key functions / callbacks that the analysed code only passes along).  The event log is left unchanged."""
+        if fterm[0] != "lam":
+            return None
+        c = self.closures[fterm[1]]
+        n_ev, n_lp, n_ob, seq = len(self.events), len(self.loops), len(self.objs), self._seq
+        dummy = ast.Call(func=ast.Name(id="<post-hoc>", ctx=ast.Load()), args=[], keywords=[], lineno=getattr(c.node, "lineno", 0), col_offset=0)
+        try:
+            r = self._inline(c.node, c.frame, c.defaults, c.finfo, tuple(args), (), _State(conds, loops), dummy, None)
+        finally:
+            self.post_events = self.events[n_ev:]
+            del self.events[n_ev:]
+            self._seq = seq
+        return r
+
     # ------------------------------------------------------------------ names
     def lookup(self, name: str, frame: Frame) -> Term:
         f = frame
@@ -1170,6 +1187,57 @@ _SYM = {"Add": "+", "Sub": "-", "Mult": "*", "Div": "/", "FloorDiv": "//", "Mod"
         "BitOr": "|", "BitAnd": "&", "BitXor": "^", "MatMult": "@", "Eq": "==", "NotEq": "!=", "Lt": "<", "LtE": "<=", "Gt": ">",
         "GtE": ">=", "Is": "is", "IsNot": "is not", "In": "in", "NotIn": "not in", "Not": "not", "USub": "-", "UAdd": "+",
         "Invert": "~"}
+
+
+def beval(t: Term, atoms: Dict[Term, bool]):
+    """Evaluate a boolean term under an assignment of atom terms; None when it does not reduce to a constant."""
+    if t in atoms:
+        return atoms[t]
+    base, flip = strip_not(t)
+    if flip and base in atoms:
+        return not atoms[base]
+    k = t[0]
+    if k == "const":
+        return t[2]
+    if k == "un" and t[1] == "Not":
+        v = beval(t[2], atoms)
+        return None if v is None else (not v)
+    if k == "bool":
+        vals = [beval(x, atoms) for x in t[2]]
+        if t[1] == "and":
+            if any(v is False for v in vals):
+                return False
+            return None if any(v is None for v in vals) else vals[-1]
+        if any(v is not None and v is not False and v for v in vals):
+            return next(v for v in vals if v)
+        return None if any(v is None for v in vals) else vals[-1]
+    if k == "ifexp":
+        c = beval(t[1], atoms)
+        if c is None:
+            return None
+        return beval(t[2] if c else t[3], atoms)
+    if k == "cmp" and t[1] in ("Eq", "NotEq", "Is", "IsNot"):
+        a, b = beval(t[2], atoms), beval(t[3], atoms)
+        if a is None and t[2] != NONE or b is None and t[3] != NONE:
+            return None
+        if isinstance(a, bool) and isinstance(b, bool):
+            return (a == b) if t[1] in ("Eq", "Is") else (a != b)
+        return None
+    if k == "bin" and t[1] == "BitXor":
+        a, b = beval(t[2], atoms), beval(t[3], atoms)
+        if isinstance(a, bool) and isinstance(b, bool):
+            return a != b
+    return None
+
+
+def reduce_ifexp(t: Term, atoms: Dict[Term, bool]) -> Term:
+    """Resolve the conditionals of `t` whose tests are decided by `atoms` (top-down)."""
+    while t[0] == "ifexp":
+        c = beval(t[1], atoms)
+        if c is None:
+            break
+        t = t[2] if c else t[3]
+    return t
 
 
 def show_conds(conds: Sequence[Cond], interp: Optional[Interp] = None) -> str:
